@@ -11,6 +11,6 @@ def run(ctx):
         'float / char / string element types differ only in their PartialOrd and are outside the decided instantiations',
         'larger samples are outside the element-level bound; the rank arithmetic does not depend on the data',
     ]
-    core.run_kani_set(ctx, ['c03_'], bound='data 4-5 elements of u8; n <= 12 symbolic + grid', harness_timeout=900)
+    core.run_kani_set(ctx, ['c03_', 'c06_wilson_quantile_per_call'], bound='data 4-5 elements of u8; n <= 12 symbolic + grid', harness_timeout=900)
     if ctx.tier == 'thorough':
         core.run_kani_set(ctx, ['t03_'], bound='n <= 64 symbolic + larger grid', harness_timeout=3000)
